@@ -55,6 +55,26 @@ pub fn cells(tier: Tier) -> Vec<CellPlan> {
     c2.rounds = 3;
     v.push(plan(c2, if q { 0 } else { 1 }, 1.0));
 
+    // Three connected clients that are authorized one by one in any order (custom
+    // authorization): a connected but not yet authorized client in the middle of the server's
+    // client list must not change who else receives an event.
+    let mut c3 = base("recipients-custom", 3, vec![0, 1, 2]);
+    c3.cfg.auth = Auth::Custom;
+    c3.alphabet = vec![
+        EvOp::Nop,
+        EvOp::Authorize(0),
+        EvOp::Authorize(1),
+        EvOp::Authorize(2),
+        EvOp::EmitS(SK::E1, Mode::Broadcast, None),
+        EvOp::EmitS(SK::E1, Mode::Except(0), None),
+        EvOp::EmitS(SK::E1, Mode::Direct(2), None),
+        EvOp::EmitS(SK::EI, Mode::Except(0), None),
+        EvOp::EmitS(SK::T1, Mode::Except(2), None),
+    ];
+    c3.tick_choice = false;
+    c3.rounds = if q { 3 } else { 4 };
+    v.push(plan(c3, if q { 0 } else { 1 }, 1.0));
+
     // Ordering and at-most-once across channel kinds.
     let mut c = base("order", 1, vec![0]);
     c.alphabet = vec![
